@@ -75,7 +75,7 @@ impl StatusList2021 {
     if value {
       self.0[i] |= 0b1000_0000 >> offset
     } else {
-      self.0[i] &= 0b0111_1111 >> offset
+      self.0[i] &= !(0b1000_0000 >> offset)
     }
   }
 
